@@ -3,7 +3,7 @@ import ast
 
 from ..model import src, walk_local, AnalysisError
 from ..cfg import ReachingDefs
-from .. import unit
+from .. import unit, summ
 from ..rules_lock import stmt_text
 
 CLAIM = ("static analysis (branch-order table of the zone cascade, dominance of the ignoretz test, definition shapes of "
@@ -45,95 +45,107 @@ def run(ctx):
     prog = ctx.prog
     bt = prog.func(P + "_build_tzaware", "C15.CASCADE")
     # ---------------------------------------------------------------- C15.CASCADE
-    ifs = [s for s in bt.node.body if isinstance(s, ast.If)]
-    if len(ifs) != 1:
-        raise AnalysisError("C15.CASCADE", bt.qualname, "zone cascade if/elif chain not found")
-    chain = chain_tests(ifs[0])
-    def norm(t):
-        return t.replace(" ", "").replace("(", "").replace(")", "")
-    tests = [norm(src(c.test)) for c in chain]
-    want = [norm(w) for w in ["callable(tzinfos) or (tzinfos and res.tzname in tzinfos)", "res.tzname and res.tzname in time.tzname", "res.tzoffset == 0", "res.tzoffset",
-                              "not res.tzname and not res.tzoffset", "res.tzname"]]
-    labels = ["tzinfos mapping/callable", "local zone names", "zero offset", "non-zero offset", "no zone information", "unresolvable name"]
-    for i, (w, lab) in enumerate(zip(want, labels)):
-        got = tests[i] if i < len(tests) else None
-        ctx.ob("C15.CASCADE", bt, "step %d of the documented zone resolution order is: %s" % (i + 1, lab), got == w, construct="cascade step %d: %s" % (i + 1, lab),
-               detail="" if got == w else "found `%s`" % (src(chain[i].test) if i < len(chain) else None), analysis="branch-order table")
-    ctx.ob("C15.CASCADE", bt, "the cascade has exactly these six steps and no final else", len(chain) == 6 and not chain[-1].orelse, construct="cascade length", detail="%d steps" % len(chain))
-    acts = [src(c.body).replace(" ", "") for c in chain]
-    checks = [
-        (0, "self._build_tzinfo(tzinfos,res.tzname,res.tzoffset)" in acts[0] if acts else False, "tzinfos step builds the zone from (name, offset) through _build_tzinfo"),
-        (1, len(acts) > 1 and "naive.replace(tzinfo=tz.tzlocal())" in acts[1], "a local zone name attaches tz.tzlocal()"),
-        (2, len(acts) > 2 and acts[2] == "aware=naive.replace(tzinfo=tz.UTC)", "a zero offset is tz.UTC"),
-        (3, len(acts) > 3 and acts[3] == "aware=naive.replace(tzinfo=tz.tzoffset(res.tzname,res.tzoffset))", "a non-zero offset is tz.tzoffset(name, offset)"),
-        (4, len(acts) > 4 and acts[4] == "aware=naive", "no zone information leaves the result naive"),
-        (5, len(acts) > 5 and "UnknownTimezoneWarning" in acts[5] and acts[5].endswith("aware=naive"), "an unresolvable name warns and leaves the result naive"),
-    ]
-    for i, ok, what in checks:
-        ctx.ob("C15.CASCADE", bt, what, bool(ok), construct="cascade action %d" % (i + 1), analysis="FIELD role")
+    # each function's guarded normal form (branch atoms -> returned value) is compared with the documented table
+    summ.check_ref(ctx, "C15.CASCADE", bt, "zone resolution follows the documented order: tzinfos (callable, or mapping containing the name) -> local "
+                   "zone names (tz.tzlocal(), UTC when the name is a UTC designator the local zone does not report) -> zero offset (tz.UTC) -> non-zero "
+                   "offset (tz.tzoffset(name, offset)) -> nothing (naive) -> name only (naive)", """
+        if callable(tzinfos) or (tzinfos and res.tzname in tzinfos):
+            tzinfo = self._build_tzinfo(tzinfos, res.tzname, res.tzoffset)
+            aware = naive.replace(tzinfo=tzinfo)
+            aware = self._assign_tzname(aware, res.tzname)
+        elif res.tzname and res.tzname in time.tzname:
+            aware = naive.replace(tzinfo=tz.tzlocal())
+            aware = self._assign_tzname(aware, res.tzname)
+            if aware.tzname() != res.tzname and res.tzname in self.info.UTCZONE:
+                aware = aware.replace(tzinfo=tz.UTC)
+        elif res.tzoffset == 0:
+            aware = naive.replace(tzinfo=tz.UTC)
+        elif res.tzoffset:
+            aware = naive.replace(tzinfo=tz.tzoffset(res.tzname, res.tzoffset))
+        elif not res.tzname and not res.tzoffset:
+            aware = naive
+        elif res.tzname:
+            aware = naive
+        return aware
+        """, construct="_build_tzaware cascade")
     bi = prog.func(P + "_build_tzinfo", "C15.CASCADE")
-    ifs2 = [s for s in bi.node.body if isinstance(s, ast.If) and "isinstance" in src(s.test)]
-    kinds = [src(c.test).replace(" ", "") for c in chain_tests(ifs2[0])] if ifs2 else []
-    acts2 = [src(c.body).replace(" ", "") for c in chain_tests(ifs2[0])] if ifs2 else []
-    okk = kinds == ["isinstance(tzdata,datetime.tzinfo)ortzdataisNone", "isinstance(tzdata,text_type)", "isinstance(tzdata,integer_types)"] and \
-        acts2 == ["tzinfo=tzdata", "tzinfo=tz.tzstr(tzdata)", "tzinfo=tz.tzoffset(tzname,tzdata)"]
-    ctx.ob("C15.CASCADE", bi, "a tzinfos value may be a tzinfo (or None), a TZ string or an integer offset in seconds", okk, construct="_build_tzinfo kinds", detail=str(kinds))
-    last = chain_tests(ifs2[0])[-1].orelse if ifs2 else []
-    ctx.ob("C15.CASCADE", bi, "any other tzinfos value raises TypeError", len(last) == 1 and isinstance(last[0], ast.Raise) and src(last[0].exc).startswith("TypeError"), construct="_build_tzinfo else")
-    look = [src(n.value).replace(" ", "") for n in walk_local(bi.node) if isinstance(n, ast.Assign) and src(n.targets[0]) == "tzdata"]
-    ctx.ob("C15.CASCADE", bi, "a callable tzinfos receives (name, offset); a mapping is looked up by name", sorted(look) == ["tzinfos(tzname,tzoffset)", "tzinfos.get(tzname)"], construct="tzinfos lookup", detail=str(look))
+    summ.check_ref(ctx, "C15.CASCADE", bi, "a callable tzinfos receives (name, offset), a mapping is looked up by name; the value may be a tzinfo (or "
+                   "None), a TZ string (tz.tzstr) or an integer offset in seconds (tz.tzoffset(name, value)); anything else raises TypeError", """
+        if callable(tzinfos):
+            tzdata = tzinfos(tzname, tzoffset)
+        else:
+            tzdata = tzinfos.get(tzname)
+        if isinstance(tzdata, datetime.tzinfo) or tzdata is None:
+            return tzdata
+        elif isinstance(tzdata, text_type):
+            return tz.tzstr(tzdata)
+        elif isinstance(tzdata, integer_types):
+            return tz.tzoffset(tzname, tzdata)
+        raise TypeError("...")
+        """, construct="_build_tzinfo kinds")
     va = prog.func("parser._parser.parserinfo.validate", "C15.CASCADE")
-    vcfg = ctx.cfg(va)
-    vf = ctx.facts(va)
-    utc = [n for n in vcfg.live_nodes() if n.kind == "stmt" and src(n.ast) == "res.tzname = 'UTC'"]
-    oku = len(utc) == 1 and any(tv and norm(t) == norm("res.tzoffset == 0 and not res.tzname or res.tzname == 'Z' or res.tzname == 'z'") for t, tv in vf.at(utc[0]))
-    ctx.ob("C15.CASCADE", va, "'Z'/'z' and a nameless zero offset are normalised to UTC", oku, construct="validate(): UTC designators")
-    z2 = [n for n in vcfg.live_nodes() if n.kind == "stmt" and src(n.ast) == "res.tzoffset = 0" and n not in vcfg.reach(utc)]
-    okz = any(any(tv and "self.utczone(res.tzname)" in t for t, tv in vf.at(n)) for n in vcfg.live_nodes() if n.kind == "stmt" and src(n.ast) == "res.tzoffset = 0")
-    ctx.ob("C15.CASCADE", va, "a UTC-designator name with a non-zero offset forces offset zero", okz, construct="validate(): UTC name wins")
+    summ.check_ref(ctx, "C15.CASCADE", va, "'Z'/'z' and a nameless zero offset are normalised to UTC with offset zero; a UTC-designator name with a "
+                   "non-zero offset forces offset zero", """
+        if (res.tzoffset == 0 and not res.tzname) or (res.tzname == 'Z' or res.tzname == 'z'):
+            res.tzname = "UTC"
+            res.tzoffset = 0
+        elif res.tzoffset != 0 and res.tzname and self.utczone(res.tzname):
+            res.tzoffset = 0
+        return True
+        """, construct="validate(): UTC designators", outcome=summ.outcome_with(stores=lambda t: t in ("res.tzname", "res.tzoffset")))
     at = prog.func(P + "_assign_tzname", "C15.CASCADE")
-    ctx.ob("C15.CASCADE", at, "an ambiguous local time whose abbreviation matches only the second occurrence gets fold=1",
-           "tz.enfold(dt, fold=1)" in src(at.node) and "new_dt.tzname() == tzname" in src(at.node) and "dt.tzname() != tzname" in src(at.node), construct="_assign_tzname body")
+    summ.check_ref(ctx, "C15.CASCADE", at, "an ambiguous local time whose abbreviation matches only the second occurrence gets fold=1", """
+        if dt.tzname() != tzname:
+            new_dt = tz.enfold(dt, fold=1)
+            if new_dt.tzname() == tzname:
+                return new_dt
+        return dt
+        """, construct="_assign_tzname table")
 
     # ---------------------------------------------------------------- C15.IGNORETZ
     pr = prog.func(P + "parse", "C15.IGNORETZ")
-    pcfg = ctx.cfg(pr)
-    pf = ctx.facts(pr)
-    calls = [n for n in pcfg.live_nodes() if n.kind == "stmt" and "self._build_tzaware(" in src(n.ast)]
-    ctx.ob("C15.IGNORETZ", pr, "time-zone attachment happens only when ignoretz is false", len(calls) == 1 and ("ignoretz", False) in pf.at(calls[0]), construct="ret = self._build_tzaware(ret, res, tzinfos)",
-           analysis="must-hold branch facts")
-    ctx.ob("C15.IGNORETZ", pr, "with ignoretz the naive wall time is returned unchanged", bool(calls) and src(calls[0].ast.value).replace(" ", "") == "self._build_tzaware(ret,res,tzinfos)" and
-           any(n.kind == "stmt" and src(n.ast) == "ret = self._build_naive(res, default)" for n in pcfg.live_nodes()), construct="naive result feeds the zone step")
-    fw = [n for n in pcfg.live_nodes() if n.kind == "stmt" and isinstance(n.ast, ast.Return) and src(n.ast.value).replace(" ", "") == "(ret,skipped_tokens)"]
-    ctx.ob("C15.IGNORETZ", pr, "fuzzy_with_tokens returns the same datetime together with the skipped text", len(fw) == 1 and any(tv and "fuzzy_with_tokens" in t for t, tv in pf.at(fw[0])),
-           construct="return ret, skipped_tokens")
+    summ.check_ref(ctx, "C15.IGNORETZ", pr, "the zone step runs exactly when ignoretz is false and receives the naive result; with ignoretz the naive wall "
+                   "time is returned unchanged; fuzzy_with_tokens returns the same datetime together with the skipped text", """
+        if default is None:
+            default = datetime.datetime.now().replace(hour=0, minute=0, second=0, microsecond=0)
+        res, skipped_tokens = self._parse(timestr, **kwargs)
+        if res is None:
+            raise ParserError("Unknown string format: %s", timestr)
+        if len(res) == 0:
+            raise ParserError("String does not contain a date: %s", timestr)
+        try:
+            ret = self._build_naive(res, default)
+        except ValueError as e:
+            six.raise_from(ParserError(str(e) + ": %s", timestr), e)
+        if not ignoretz:
+            ret = self._build_tzaware(ret, res, tzinfos)
+        if kwargs.get('fuzzy_with_tokens', False):
+            return ret, skipped_tokens
+        else:
+            return ret
+        """, construct="parse(): naive -> zone step -> result")
 
     # ---------------------------------------------------------------- C15.CLIP
     bn = prog.func(P + "_build_naive", "C15.CLIP")
-    ncfg = ctx.cfg(bn)
-    nf = ctx.facts(bn)
-    clip = [n for n in ncfg.live_nodes() if n.kind == "stmt" and isinstance(n.ast, ast.Assign) and src(n.ast.targets[0]) == "repl['day']"]
-    if len(clip) != 1:
-        raise AnalysisError("C15.CLIP", bn.qualname, "month-end clip assignment not found")
-    fs = nf.at(clip[0])
-    guards = sorted(t for t, tv in fs if tv and "repl" in t)
-    ctx.ob("C15.CLIP", bn, "the clip is considered exactly when the text supplied no day (whatever else it supplied)", guards == ["'day' not in repl"], construct="clip guard",
-           detail="" if guards == ["'day' not in repl"] else "guard conjuncts: %s" % guards, analysis="must-hold branch facts")
-    rd = ReachingDefs(ncfg, params=bn.params)
-    for name, fld in (("cyear", "year"), ("cmonth", "month"), ("cday", "day")):
-        defs = [ncfg.nodes[d] for d in rd.at(clip[0], name) if d]
-        want_src = "default.%s if res.%s is None else res.%s" % (fld, fld, fld)
-        alt = "res.%s if res.%s is not None else default.%s" % (fld, fld, fld)
-        ok = len(defs) == 1 and src(defs[0].ast.value) in (want_src, alt)
-        ctx.ob("C15.CLIP", bn, "the %s used for clipping is the parsed one if present, else the default's" % fld, ok, construct="%s definition" % name,
-               detail="" if ok else str([src(d.ast) for d in defs]), analysis="reaching definitions + FIELD same-field")
-    okc = src(clip[0].ast.value).replace(" ", "") == "monthrange(cyear,cmonth)[1]" and ("cday > monthrange(cyear, cmonth)[1]", True) in fs
-    ctx.ob("C15.CLIP", bn, "the day becomes the last day of the resulting month only when the default day exceeds it", okc, construct="clip value and test")
-    wk = [n for n in ncfg.live_nodes() if n.kind == "stmt" and "relativedelta.relativedelta(weekday=res.weekday)" in src(n.ast)]
-    okw = len(wk) == 1 and ("res.weekday is not None", True) in nf.at(wk[0]) and ("res.day", False) in nf.at(wk[0]) and src(wk[0].ast.value).replace(" ", "").startswith("naive+")
-    ctx.ob("C15.CLIP", bn, "a bare weekday name moves the default forward to that weekday, only when no day was parsed", okw, construct="weekday shift")
-    rep = [n for n in ncfg.live_nodes() if n.kind == "stmt" and src(n.ast) == "naive = default.replace(**repl)"]
-    ctx.ob("C15.CLIP", bn, "the clip happens before the default is replaced", len(rep) == 1 and ncfg.path_avoiding(clip[0], rep, avoid_nodes=[]) is not None and rep[0] not in ncfg.reach([n for n in wk]), construct="order clip -> replace -> weekday")
+    summ.check_ref(ctx, "C15.CLIP", bn, "the month-end clip is considered exactly when the text supplied no day; year, month and day compared are the "
+                   "parsed ones if present, else the default's; the day becomes the month length only when larger; the clip happens before the default is "
+                   "replaced; a bare weekday name moves the result forward to that weekday only when no day was parsed", """
+        repl = {}
+        for attr in ("year", "month", "day", "hour", "minute", "second", "microsecond"):
+            value = getattr(res, attr)
+            if value is not None:
+                repl[attr] = value
+        if 'day' not in repl:
+            cyear = default.year if res.year is None else res.year
+            cmonth = default.month if res.month is None else res.month
+            cday = default.day if res.day is None else res.day
+            if cday > monthrange(cyear, cmonth)[1]:
+                repl['day'] = monthrange(cyear, cmonth)[1]
+        naive = default.replace(**repl)
+        if res.weekday is not None and not res.day:
+            naive = naive + relativedelta.relativedelta(weekday=res.weekday)
+        return naive
+        """, construct="_build_naive clip table", outcome=summ.outcome_with(stores=lambda t: t.startswith("repl["), calls=lambda t: t == "default.replace"))
 
     # ---------------------------------------------------------------- C15.FUZZY / C15.AMPM
     pp = prog.func(P + "_parse", "C15.FUZZY")
@@ -177,9 +189,16 @@ def run(ctx):
 
     # ---------------------------------------------------------------- C15.TOKENS
     rc = prog.func(P + "_recombine_skipped", "C15.TOKENS")
-    loops = [n for n in walk_local(rc.node) if isinstance(n, ast.For)]
-    ctx.ob("C15.TOKENS", rc, "skipped tokens are emitted in scan order, adjacent ones merged", len(loops) == 1 and src(loops[0].iter).replace(" ", "") == "enumerate(sorted(skipped_idxs))" and
-           "skipped_tokens[-1] = skipped_tokens[-1] + tokens[idx]" in src(rc.node) and "skipped_tokens.append(tokens[idx])" in src(rc.node), construct="_recombine_skipped body")
+    summ.check_ref(ctx, "C15.TOKENS", rc, "skipped tokens are emitted in scan order, adjacent ones merged", """
+        skipped_tokens = []
+        for i, idx in enumerate(sorted(skipped_idxs)):
+            if i > 0 and idx - 1 == skipped_idxs[i - 1]:
+                skipped_tokens[-1] = skipped_tokens[-1] + tokens[idx]
+            else:
+                skipped_tokens.append(tokens[idx])
+        return skipped_tokens
+        """, construct="_recombine_skipped table", alpha=True, loops="body",
+                   outcome=summ.outcome_with(stores=lambda t: True, calls=lambda t: t.endswith(".append") or t.endswith(".extend") or t.endswith(".insert")))
     rt = [n for n in cfg.live_nodes() if n.kind == "stmt" and isinstance(n.ast, ast.Return) and "tuple(skipped_tokens)" in src(n.ast)]
     ctx.ob("C15.TOKENS", pp, "the skipped text is returned only for fuzzy_with_tokens", len(rt) == 1 and ("fuzzy_with_tokens", True) in facts.at(rt[0]), construct="return res, tuple(skipped_tokens)")
 
